@@ -142,7 +142,7 @@ func ModComment(r *rand.Rand) string {
 	return "//" + t
 }
 
-var modStructWords = []string{"x", "y", "zz", "require", "module2", "go", "1.21", "v1.2.3", "a/b", "\"s\"", "\"s t\"", "`raw`", "`r w`", "=>",
+var modStructWords = []string{"x", "y", "zz", "require", "module2", "go", "1.21", "v1.2.3", "a/b", "\"s\"", "\"s t\"", "`raw`", "`r w`", "=>", "`C:\\src\\dep\\`", "`\\`", "`a\\\"b`",
 	"\"//\"", "\"/*\"", "é", "世", "[", "]", "{", "}", ",", "k=v", "./dir", "\"\\\"\"", "\"(\"", "x\\y", "a'b", "\"\\x00\"", "\xff"}
 
 type modLayout struct {
@@ -466,7 +466,7 @@ func (d *ModDoc) WithUnknown(r *rand.Rand, n int) *ModDoc {
 var modUnknownVerbs = []string{"foo", "unknown", "requires", "Require", "GO", "Module", "toolchains", "ignore", "vendor", "x.y/z", "=>",
 	"\"go\"", "\"require\"", "\"module\"", "modules", "retracts", "é", "v1.2.3", "[", "]", ",", "{", "}", "go2", "_"}
 var modUnknownArgs = []string{"x", "y/z", "v1.0.0", "\"q s\"", "=>", "[", "]", ",", "{", "}", "1.21", "`raw`", "a=b", "./d", "module", "require", "go",
-	"\"//\"", "( x", "( ) y", ") z", "é", "'"}
+	"\"//\"", "( x", "( ) y", ") z", "é", "'", "`C:\\src\\dep\\`", "`\\`", "`a\\\"b`"}
 
 // unknownStmt returns one complete unknown statement (line or block) ending in a newline.
 func (l *modLayout) unknownStmt(work bool) string {
@@ -606,7 +606,9 @@ var modHosts = []string{"example.com", "github.com/user", "golang.org/x", "rsc.i
 var modNames = []string{"m", "tools", "quote", "repo", "pkg-x", "a_b", "z9", "Mixed", "x.y", "mod", "v", "vv2", "cmd"}
 var modExoticPaths = []string{"example.com/a b", "example.com/a\"q", "example.com/(paren)", "ex.com/a//b", "ex.com/a/*b", "世界.com/m", "ex.com/a,b",
 	"ex.com/[x]", "ex.com/a\tb", "ex.com/\x00z", "ex.com/it's", "ex.com/`bq`", "ex.com/\xffbad", "ex.com/{c}", "ex.com/nb\u00a0sp", "ex.com/e\u0301",
-	"ex.com/new\nline", "(x", "a)", "module x", "ex.com/back\\slash", "ex.com/🙂", "ex.com/trailing\\", "ex.com/sp ace\\", "\\"}
+	"ex.com/new\nline", "(x", "a)", "module x", "ex.com/back\\slash", "ex.com/🙂", "ex.com/trailing\\", "ex.com/sp ace\\", "\\",
+	// values spelled like tokens of the grammar itself
+	"=>", "=>x", "require", "replace", "go", "v1.0.0", "module"}
 
 // ModPathVersion returns a module path and a canonical version that satisfies the
 // path's major-version suffix. exotic allows paths that need quoting.
@@ -1006,7 +1008,8 @@ func GoMod(r *rand.Rand, o ModOpts) *ModDoc {
 		it := modItem{toks: []string{l.tok(p, o.Plain), l.tok(q.Version, o.Plain)}}
 		if r.IntN(3) == 0 {
 			q.Indirect = true
-			it.suffix = Pick(r, []string{"// indirect", "//indirect", "// indirect; because", "//\tindirect  ", "// indirect;x y"})
+			it.suffix = Pick(r, []string{"// indirect", "//indirect", "// indirect; because", "//\tindirect  ", "// indirect;x y",
+				"//\u00a0indirect", "// indirect;\u3000why", "//\vindirect", "// indirect\u2003", "// indirect;\u00a0note"})
 		} else if !o.NoComments && r.IntN(8) == 0 {
 			it.suffix = Pick(r, []string{"// indirectly", "// not indirect", "// indirect;", "//", "// Indirect"})
 		}
